@@ -242,7 +242,12 @@ func genOnce(out string, k int, decls []decl, o opts) (genErr string, parseErr s
 	}
 	svc := &generator.Service{Name: "Svc"}
 	for _, d := range decls {
-		svc.Methods = append(svc.Methods, &generator.HttpMethod{Name: d.Name, HTTPMethod: d.Verb, Path: d.Path, OutputDir: d.Dir, Serializer: "JSON", RequestTypeName: "api.Req", ReturnTypeName: "api.Resp"})
+		hm := d.Verb
+		if hm == "Any" && len(d.Path)%2 == 0 {
+			// the thrift front end hands the verb of api.any over as "ANY", the protobuf one as "Any"
+			hm = "ANY"
+		}
+		svc.Methods = append(svc.Methods, &generator.HttpMethod{Name: d.Name, HTTPMethod: hm, Path: d.Path, OutputDir: d.Dir, Serializer: "JSON", RequestTypeName: "api.Req", ReturnTypeName: "api.Resp"})
 	}
 	pkg := &generator.HttpPackage{IdlName: "api.thrift", Package: "api", Services: []*generator.Service{svc}}
 	if err := g.Generate(pkg); err != nil {
